@@ -9,6 +9,7 @@ own float formula — is at least that threshold.  With never-merge every cluste
 import BBProps.C01
 import BBProofs.Merges
 import BBProofs.GenEq3
+import BBProofs.GenEq2
 
 namespace BB
 
